@@ -73,6 +73,18 @@ func (c *Ctx) treeCallsV(f *ssa.Function, env Env, depth int, top *ssa.Call, via
 	return out
 }
 
+// callNamedDyn: the call is to the named function or method — directly, or through a function value the helper was
+// handed (a method value such as s.ParseSignedDataForRecover passed to a generic parse-and-wrap helper).
+func (c *Ctx) callNamedDyn(cl *ssa.Call, env Env, name string) bool {
+	if callNamed(cl, name) {
+		return true
+	}
+	if fn, _, ok := c.dynCallee(cl, env); ok && fn != nil {
+		return strings.TrimSuffix(fn.Name(), "$bound") == name
+	}
+	return false
+}
+
 func callNamed(cl *ssa.Call, name string) bool {
 	if cl.Call.IsInvoke() {
 		return cl.Call.Method.Name() == name
@@ -100,7 +112,7 @@ func (c *Ctx) applierParseCall(rule, typ string, f *ssa.Function) *tcall {
 func (c *Ctx) applierSDCall(rule, typ string, f *ssa.Function, opPath string) *tcall {
 	ok := c.treeCalls(f, nil, 0, func(cl *ssa.Call, env Env) bool {
 		a := declArgs(cl)
-		return callNamed(cl, parseSDMethod[typ]) && len(a) == 1 && c.Path(a[0], env) == opPath+"#0.SignedData"
+		return c.callNamedDyn(cl, env, parseSDMethod[typ]) && len(a) == 1 && c.Path(a[0], env) == opPath+"#0.SignedData"
 	})
 	if len(ok) != 1 {
 		c.Check(rule, "apply-"+typ+":signed-data-call", false, f.Pos(), fmt.Sprintf("expected exactly one call %s(op.SignedData) on the parsed operation in %s, found %d", parseSDMethod[typ], short(f.String()), len(ok)))
@@ -246,17 +258,24 @@ func runC02(c *Ctx) {
 		}
 		// VerifySignature dispatch
 		c.Analysed(verifySig)
-		tbl := c.caseTable(verifySig, nil, func(p string) bool { return p == "$0.Kty" })
+		// (a switch over the key type, or a package-level table of verifier functions keyed by it)
+		dvK := c.dispatch(verifySig, func(p string) bool { return p == "$0.Kty" })
 		got := map[string]string{}
-		for k, blk := range tbl {
-			for _, cl := range callsIn(blk) {
-				if g := cl.Call.StaticCallee(); g != nil && inModule(g) {
+		verifiers := map[string]*ssa.Function{}
+		for k, a := range dvK.arms {
+			for _, ac := range c.armCalls(dvK, a) {
+				if g := ac.callee; g != nil && inModule(g) {
 					got[unquote(k)] = g.Name()
+					verifiers[k] = g
 					// arguments pass (jwk, signature, msg) through unchanged
-					okArgs := len(cl.Call.Args) == 3 && c.Path(cl.Call.Args[0], nil) == "$0" && c.Path(cl.Call.Args[1], nil) == "$1" && c.Path(cl.Call.Args[2], nil) == "$2"
-					c.Check("C02.G2", "VerifySignature:case-"+unquote(k)+":args", okArgs, cl.Pos(), "verifier receives (jwk, signature, msg) unchanged")
+					okArgs := len(ac.args) == 3 && ac.args[0] == "$0" && ac.args[1] == "$1" && ac.args[2] == "$2"
+					c.Check("C02.G2", "VerifySignature:case-"+unquote(k)+":args", okArgs, verifySig.Pos(), "verifier receives (jwk, signature, msg) unchanged")
 				}
 			}
+		}
+		if dvK.table {
+			foundOnly, callReq := c.tableGuards(dvK)
+			c.Check("C02.G2", "VerifySignature:table:unknown-kty-refused", foundOnly && callReq, verifySig.Pos(), "a key type outside the table is refused and the table's verifier decides")
 		}
 		c.Check("C02.G2", "VerifySignature:kty-table", len(got) == 2 && got["EC"] != "" && got["OKP"] != "" && got["EC"] != got["OKP"], verifySig.Pos(), fmt.Sprintf("kty dispatch table %v (expected exactly EC and OKP to distinct verifiers)", got))
 		ecV := c.ExtFn("crypto/ecdsa", "Verify")
@@ -270,12 +289,8 @@ func runC02(c *Ctx) {
 			}}
 			c.CheckGuard("C02.G2", "VerifySignature:Verify-result-tested", verifySig, nil, anyVerify)
 			// per verifier, and argument dependence: key from jwk param, message from msg param, sig from signature param
-			for k, blk := range tbl {
-				for _, cl := range callsIn(blk) {
-					g := cl.Call.StaticCallee()
-					if g == nil || !inModule(g) {
-						continue
-					}
+			for k, g := range verifiers {
+				{
 					c.CheckGuard("C02.G2", "verifier-"+unquote(k)+":Verify-result-tested", g, nil, anyVerify)
 					for _, vc := range findCalls(g, func(x *ssa.Call) bool { s := x.Call.StaticCallee(); return s == ecV || s == edV }) {
 						var roles []int // param index each Verify argument must depend on
